@@ -100,8 +100,14 @@ def _guard(fn, *a):
         signal.signal(signal.SIGALRM, old)
 
 
+# vertex names need only be hashable: the exotic ones are written "@k" in the (JSON) case and decoded here
+_EXOTIC = [None, "", (), ("a", 1), 2.5, frozenset({1}), b"x", False, (None,), float("inf")]
+
+
 def _label(x):
-    # JSON turns nothing here into something else: labels are ints or strs
+    # JSON turns nothing else here into something else: labels are ints or strs
+    if isinstance(x, str) and x.startswith("@") and x[1:].isdigit():
+        return _EXOTIC[int(x[1:])]
     return x
 
 
@@ -177,6 +183,9 @@ _LABEL_FAMILIES = [
     lambda n, rng: [8 * i for i in rng.sample(range(12), n)],          # collide in an 8-slot set table
     lambda n, rng: rng.sample(["a", "b", "c", "d", "e", "f", "g", "x1", "x2", "fam10", "fam2"], n),
     lambda n, rng: rng.sample([-1, -2, 0, 7, 15, 16, 31, 32, 1 << 40, "z"], n),
+    # any hashable value is a legal vertex name: None, empty string and tuple, floats, frozensets, bytes, booleans
+    lambda n, rng: rng.sample(["@0", "@1", "@2", "@3", "@4", "@5", "@6", "@7", "@8", "@9", 1, "n"], n),
+    lambda n, rng: rng.sample(["@0", "@1", "@2", "@7", 3, "q", "@8"], n),
 ]
 
 
